@@ -77,6 +77,10 @@ fn reference_program() -> net::NetProgram {
     let mut rng = prng::Rng::new(0xC0FFEE);
     let mut p = net_gen::gen_c04(&mut rng, Tier::Quick);
     p.seed = 77;
+    // the reference model also looks at the global view of its simulation
+    for m in &mut p.modules {
+        m.beats.insert(0, net::Beat { at_ns: 0, acts: vec![net::Act::QueryTree] });
+    }
     p
 }
 
@@ -503,8 +507,21 @@ fn perturb_process(seed: u64) {
     let mut rng = prng::Rng::new(seed);
     let sims = rng.below(20);
     for _ in 0..sims {
-        let p = net_gen::gen_c04(&mut rng, Tier::Quick);
-        let _ = net::run_net(&p, &net::RunOpts::default());
+        let mut p = net_gen::gen_c04(&mut rng, Tier::Quick);
+        // some of the earlier simulations crash: a processing element panics, the panic unwinds out of `run()` and the
+        // simulation is dropped during the unwinding - on this thread or on another one
+        let crash = rng.chance(1, 4);
+        if crash {
+            p.gstack.push(net::PeSpec { mode: 4, m: 1, r: 0, send_hook: 0, gate: 0 });
+        }
+        if crash && rng.chance(1, 2) {
+            let _ = std::thread::spawn(move || {
+                let _ = net::run_net(&p, &net::RunOpts::default());
+            })
+            .join();
+        } else {
+            let _ = net::run_net(&p, &net::RunOpts::default());
+        }
     }
     let kb = rng.below(2000) as usize;
     let prelude: Vec<u8> = vec![0xAB; kb * 1024 + 13];
